@@ -181,6 +181,7 @@ class SimSocket:
         if not self._connected:
             raise _err(errno.ENOTCONN, "Socket is not connected")
         if self._tx_broken or self._rx_rst:
+            k.fault("epipe")
             raise BrokenPipeError(errno.EPIPE, "Broken pipe")
         peer = self._peer
         net = self._net
